@@ -36,7 +36,8 @@ DEFAULT_PROFILE = {
     "p_extra_layers": 0.5,
     "p_shared_stack": 0.6,
     "entry_w": {"tree": 9, "hms": 1, "minimize": 0},
-    "p_manual_steps": 0.12,  # entry "tree" replaced by a manual `while not gsc(tree): tree.run_step()` loop
+    "p_manual_steps": 0.12,
+    "p_long_run": 0.04,  # 40-80 metaepochs with small populations: archives wrap round, CMA-ES terminates itself, ...  # entry "tree" replaced by a manual `while not gsc(tree): tree.run_step()` loop
     "metaepochs": [2, 12],
     "level_limit": [1, 4],
     "p_no_level_limit": 0.1,
@@ -375,6 +376,25 @@ def gen_plan(seed, prof=None, prop="GEN"):
     r2 = random.Random(seed ^ 0x57E95)
     if plan["entry"] == "tree" and r2.random() < prof.get("p_manual_steps", 0.0):
         plan["entry"] = "steps"
+    if r2.random() < prof.get("p_long_run", 0.0) and plan["gsc"]["kind"] in ("metaepoch_limit", "singular_eval_limit"):
+        plan["gsc"] = {"kind": "metaepoch_limit", "limit": r2.randint(40, 80)}
+        plan["caps"]["metaepochs"] = 120
+        plan["long_run"] = True
+        for l in plan["levels"]:
+            if "pop_size" in l:
+                l["pop_size"] = min(l["pop_size"], 8 if l.get("ea") != "MWEA" else 8)
+                if l.get("ea") == "MWEA":
+                    l["pop_size"] = max(6, l["pop_size"])
+                    l["election_group_size"] = min(l.get("election_group_size", 3), l["pop_size"])
+                if l["engine"] in ("de", "shade"):
+                    l["pop_size"] = max(4, l["pop_size"])
+            if l["engine"] == "shade":
+                l["memory_size"] = r2.choice([1, 2, 3])
+            if "k_elites" in l and l.get("ea") != "MWEA":
+                l["k_elites"] = min(l["k_elites"], l["pop_size"])
+        f = plan.get("faults", {})
+        if f.get("stop_at_consult") is not None:
+            f["stop_at_consult"] = f["stop_at_consult"] * 8
     return plan
 
 
